@@ -316,7 +316,10 @@ C04_CASES = [("(10 m -> 2 m) -> m", "10 m"), ("6 hours -> 45 min", "8 × 45 min"
              ("let shifts = 6 hours -> 45 min\nshifts -> min", "360 min"), ("2 km^(2/3) -> m^(2/3)", "200 m^(2/3)"), ("1 mile -> km -> mile", "1 mi"), ("1 inch -> cm", "2.54 cm"),
              ("5 m * 2 cm -> m*cm", "10 m·cm"), ("2 kg m / s^2 -> N", "2 N"), ("-(1 km -> m) + 0 m", "-1000 m"), ("100 cm -> m -> cm", "100 cm")]
 C05_CASES = [("10 N / 5 Pa -> N/Pa", "2 N/Pa"), ("120 J / 60 W -> J/W", "2 J/W"), ("10 N / 5 Pa", "2 m²"), ("1 J / 1 s", "1 W"), ("print(10 N / 5 Pa -> N/Pa)", "2 N/Pa"),
-             ("\"{10 N / 5 Pa -> N/Pa}\"", "\"2 N/Pa\""), ("1 km / 1 m", "1000"), ("5 m * 2 cm -> m*cm", "10 m·cm"), ("3 pN * 2 nm -> pN*nm", "6 pN·nm")]
+             ("\"{10 N / 5 Pa -> N/Pa}\"", "\"2 N/Pa\""), ("1 km / 1 m", "1000"), ("5 m * 2 cm -> m*cm", "10 m·cm"), ("3 pN * 2 nm -> pN*nm", "6 pN·nm"),
+             # registry-based simplification CONVERTS (the magnitude follows the unit): products of small prefixed units
+             ("1 pN * 1 nm", "0.000458742 Ry"), ("2 µW * 3 ps", "2.75245 Ry"), ("3 pN * 2 nm", "0.00275245 Ry"), ("\"{3 pN * 2 nm}\"", "\"0.00275245 Ry\""),
+             ("(3 pN * 2 nm) -> pN*nm", "6 pN·nm"), ("50 Ω * 2 A", "100 V"), ("2 mA * 3 mV", "6 mA·mV")]
 
 
 def w_c10(seed):
